@@ -4,10 +4,11 @@ import json, os
 V = os.path.dirname(os.path.dirname(os.path.abspath(__file__)))
 ids = [json.loads(l)["id"] for l in open(os.path.join(V, "properties.jsonl"))]
 na = json.load(open(os.path.join(V, "props", "NOT_APPLICABLE.json")))
+claimed = json.load(open(os.path.join(V, "props", "CLAIMED.json")))   # only properties whose check is green are registered
 checks, notapp = [], []
 for i in ids:
     p = os.path.join(V, "props", i + ".json")
-    if os.path.exists(p) and i not in na:
+    if os.path.exists(p) and i not in na and i in claimed:
         d = json.load(open(p))
         checks.append({
             "property_id": i,
